@@ -279,6 +279,7 @@ def run(ctx):
             and bool(e[2]) and rooted_in(e[2][0], SELF) and e[2][0] != SELF and absx.pc_variant(o.st.pc, lambda v: v == e[2][0], 'None') is True
     judged = []
     page_ends = []              # the paths on which the upstream reported the end of a page
+    foreign = {}                # what else of the page's result the page-end paths test: {what: [(severity, atom, truth, what the path does)]}
     request_fields = set()      # the fields of the adapter a follow-up request is built from (read off the follow-up paths)
     def judge_state(o, which):
         judged.append((o, which))
@@ -312,14 +313,12 @@ def run(ctx):
         # Stated about every path on which the upstream answered Ok(None), whatever it goes on to do: no test on the way (an `if`, a
         # guard, a literal or a range inside a pattern, a `matches!`) reads another part of the result or of the control.
         for what, a, t in foreign_tests(o):
-            outcome = 'ends the search without looking at the cookie (the pages that remain are never requested, the paging control stays in the final result)' \
-                if not parses and not searches and not removes and o.kind == 'ret' else \
-                'ends the search and leaves the paging control in the final result' if parses and not searches and not removes and o.kind == 'ret' else \
-                'asks for the next page' if searches else 'removes the paging control and ends' if removes else 'goes on'
-            ctx.fail('A2.page-end-decided-by-cookie-alone', what, loc(N.root),
-                     'the page\'s %s decides whether its cookie is looked at / its paging control removed: where `%s` is %s next() %s; at the end of a page '
-                     'nothing but the presence of the page\'s result, of the paging control in it and the emptiness of its cookie may decide what happens'
-                     % (what, absx.fmt(a)[:80], 'true' if t else 'false', outcome))
+            ended = not searches and o.kind == 'ret'
+            sev, outcome = (0, 'ends the search without looking at the cookie (the pages that remain are never requested, the paging control stays in the final result)') \
+                if ended and not parses and not removes else \
+                (1, 'ends the search and leaves the paging control in the final result') if ended and not removes else \
+                (2, 'asks for the next page') if searches else (2, 'removes the paging control and ends') if removes else (2, 'goes on')
+            foreign.setdefault(what, []).append((sev, absx.fmt(a)[:80], 'true' if t else 'false', outcome))
         page_ends.append(o)
         ctx.add('A2.page-end-decided-by-cookie-alone', 'page-end path %d' % len(page_ends), loc(N.root), True, '')
         res_some = next((t for a, t in o.st.pc if a == ('is', ('field', STREAM, 'res'), 'Some')), None)
@@ -440,6 +439,13 @@ def run(ctx):
             ctx.add('A2.splices-new-stream', which, loc(N.root), oksp, 'after a successful follow-up the stream must continue on the new search\'s handle and receiver' + ('' if rec_ok else ' and take over its record of the Search\'s message ID (%s): a later expiry or early finish would scrub the previous page\'s ID' % ', '.join(SID.record_fields)))
         else:
             ctx.add('A2.follow-up-error-returned', which, loc(N.root), o.kind == 'ret' and sem.is_err_result(o.val) and sem.has(o.val, lambda x: x == sterm) and not removes, 'a failed follow-up search must be returned as the error')
+    for what, l in sorted(foreign.items()):
+        # one report per part of the result that is read, worded by the path that loses most (pages not requested > control left in)
+        sev, atom, truth, outcome = sorted(l)[0]
+        ctx.fail('A2.page-end-decided-by-cookie-alone', what, loc(N.root),
+                 'the page\'s %s decides whether its cookie is looked at / its paging control removed: where `%s` is %s next() %s; at the end of a page '
+                 'nothing but the presence of the page\'s result, of the paging control in it and the emptiness of its cookie may decide what happens '
+                 '(%d path(s) of next() test it)' % (what, atom, truth, outcome, len(l)))
     for o, which in judged:
         judge_state_now(o, which)
     for need in ('passthrough', 'no-result', 'no-paging-control', 'last-page', 'follow-up|ok', 'follow-up|err'):
